@@ -836,3 +836,62 @@ Proof. exact ProofsNorm3.cauchy_norm. Qed.
 Example gp_arg_instances :
   0 < gp_arg 0 1 (1 / 2) 3 /\ 0 < gp_arg 0 1 (-1 / 2) 1 /\ 0 < gp_arg 2 (3 / 4) 0 (-5) /\ ~ 0 < gp_arg 0 1 (-1 / 2) 2 /\ gpareto_valid 0 1 (1 / 2) /\ cauchy_valid 1 2.
 Proof. unfold gp_arg, gpareto_valid, cauchy_valid. repeat split; try lra. Qed.
+
+(* ------------------------------------------------------------------ round 7 *)
+(* vectorDistribution.VectorId: product over blocks of DIFFERENT dimensions (running offset j += Dim()) *)
+From ADV Require C14.ProofsVid C14.ProofsPoint.
+Import ProofsVid (blocks_fit, block_results, probe_first).
+
+(* every list of components, every block layout: the product at the concatenation of the blocks is the
+   error-propagating sum of the component results, each component on its own block *)
+Theorem vectorid_blocks :
+  forall (comps : list (nat * (list R -> res))) (bs : list (list R)), blocks_fit comps bs -> vid_logpdf comps (concat bs) = fold_left prod_step (block_results comps bs) (Val (Fin 0)).
+Proof. exact ProofsVid.vid_blocks. Qed.
+
+Theorem vectorid_formula :
+  forall (comps : list (nat * (list R -> res))) (bs : list (list R)) (vs : list R), blocks_fit comps bs -> List.Forall2 (fun (r : res) (v : R) => r = Val (Fin v)) (block_results comps bs) vs -> vid_logpdf comps (concat bs) = Val (Fin (fold_left Rplus vs 0)).
+Proof. exact ProofsVid.vid_formula. Qed.
+
+(* one block outside the support of its component (the others finite or -Inf): the product is -Inf *)
+Theorem vectorid_support :
+  forall (comps : list (nat * (list R -> res))) (bs : list (list R)), blocks_fit comps bs -> List.Forall (fun r : res => exists v : ER, r = Val v /\ (v = NInf \/ (exists q : R, v = Fin q))) (block_results comps bs) -> List.Exists (fun r : res => r = Val NInf) (block_results comps bs) -> vid_logpdf comps (concat bs) = Val NInf.
+Proof. exact ProofsVid.vid_support. Qed.
+
+Theorem vectorid_dim_guard :
+  forall (comps : list (nat * (list R -> res))) (x : list R), length x <> vid_dim comps -> vid_logpdf comps x = ErrDim.
+Proof. exact ProofsVid.vid_dim_guard. Qed.
+
+(* non-vacuity: layouts 2+1+1 and 1+2 with components that report the first entry of the block they are given *)
+Example vectorid_layout_instance :
+  vid_logpdf [(2%nat, probe_first); (1%nat, probe_first); (1%nat, probe_first)] [1; 10; 100; 1000] = Val (Fin (0 + 1 + 100 + 1000)) /\ vid_logpdf [(1%nat, probe_first); (2%nat, probe_first)] [1; 10; 100] = Val (Fin (0 + 1 + 10)).
+Proof. exact ProofsVid.vid_layout_example. Qed.
+Example vectorid_blocks_instance :
+  blocks_fit [(2%nat, probe_first); (1%nat, probe_first)] [[1; 10]; [100]] /\ List.Forall2 (fun (r : res) (v : R) => r = Val (Fin v)) (block_results [(2%nat, probe_first); (1%nat, probe_first)] [[1; 10]; [100]]) [1; 100].
+Proof. split; repeat constructor. Qed.
+
+(* boundary parameter values accepted by the constructors: point masses (`0^0 = 1` branches) *)
+Theorem negbinomial_p0_point_mass :
+  forall (lgam : R -> R) (r : R), 0 < r -> lgam 1 = 0 -> exists d : nb_d, nb_new lgam r 0 = Some d /\ nb_logpdf lgam d 0 = Val (Fin 0) /\ (forall k : Z, (0 < k)%Z -> nb_logpdf lgam d (IZR k) = Val NInf) /\ (forall k : Z, (k < 0)%Z -> nb_logpdf lgam d (IZR k) = Val NInf) /\ (forall x : R, is_intb x = false -> nb_logpdf lgam d x = Val NInf).
+Proof. exact ProofsPoint.negbinomial_p0_point_mass. Qed.
+
+(* p = 1 is accepted by the constructor although p^k (1-p)^r is identically 0 then: no mass anywhere (finding) *)
+Theorem negbinomial_p1_no_mass :
+  forall (lgam : R -> R) (r : R), 0 < r -> exists d : nb_d, nb_new lgam r 1 = Some d /\ (forall k : Z, (0 <= k)%Z -> nb_logpdf lgam d (IZR k) = Val NInf).
+Proof. exact ProofsPoint.negbinomial_p1_no_mass. Qed.
+
+Theorem geometric_p1_point_mass :
+  exists d : geo_d, geo_new 1 = Some d /\ geo_logpdf d 0 = Val (Fin 0) /\ (forall k : Z, (0 < k)%Z -> geo_logpdf d (IZR k) = Val NInf) /\ (forall k : Z, (k < 0)%Z -> geo_logpdf d (IZR k) = Val NInf).
+Proof. exact ProofsPoint.geometric_p1_point_mass. Qed.
+
+Theorem binomial_theta0_point_mass :
+  forall (lgam : R -> R) (n : Z), (0 <= n)%Z -> lgam 1 = 0 -> exists d : bin_d, bin_new lgam 0 n = Some d /\ bin_logpdf lgam d 0 = Val (Fin 0) /\ (forall k : Z, (0 < k <= n)%Z -> bin_logpdf lgam d (IZR k) = Val NInf).
+Proof. exact ProofsPoint.binomial_theta0_point_mass. Qed.
+
+Theorem binomial_theta1_point_mass :
+  forall (lgam : R -> R) (n : Z), (0 <= n)%Z -> lgam 1 = 0 -> exists d : bin_d, bin_new lgam 1 n = Some d /\ bin_logpdf lgam d (IZR n) = Val (Fin 0) /\ (forall k : Z, (0 <= k < n)%Z -> bin_logpdf lgam d (IZR k) = Val NInf).
+Proof. exact ProofsPoint.binomial_theta1_point_mass. Qed.
+
+(* non-vacuity: a log-gamma candidate with lgam 1 = 0, and parameters in range *)
+Example point_mass_instance :
+  (fun x : R => x - 1) 1 = 0 /\ 0 < 5 / 2 /\ (0 <= 3)%Z /\ (0 < 2 <= 3)%Z.
+Proof. repeat split; try lra; discriminate. Qed.
